@@ -36,6 +36,7 @@ var PrivateHelpers = map[string][]string{
 	"constrecv":   {"(lvl).tag", "(lv2).tag"},
 	"constbound":  {"(bw8).scaled", "(bw16).scaled"},
 	"genericinst": {"isT"},
+	"deferinvoke": {"(*fw).Close", "(*fw).Flush", "(*fw).Note"},
 }
 
 // ManualEdit is a hand-written behaviour-changing rewrite of a base.
@@ -834,6 +835,48 @@ func isT[T any](v interface{}) bool {
 	return ok
 }
 `}}},
+		// a deferred / spawned call THROUGH AN INTERFACE: which method is invoked is all that changes
+		Base{Name: "F", ID: "deferinvoke", Src: "func F" + sig + ` {
+	var w wr = &fw{}
+	defer w.Close()
+	w.Note(a)
+	return b, x
+}
+
+type wr interface {
+	Close()
+	Flush()
+	Note(int)
+}
+
+type fw struct{}
+
+func (f *fw) Close() { sink(1) }
+
+func (f *fw) Flush() { sink(2) }
+
+func (f *fw) Note(v int) { sink(v + 10) }
+`, Manual: []ManualEdit{{"the deferred interface call invokes another method (defer w.Close() -> defer w.Flush())", "func F" + sig + ` {
+	var w wr = &fw{}
+	defer w.Flush()
+	w.Note(a)
+	return b, x
+}
+
+type wr interface {
+	Close()
+	Flush()
+	Note(int)
+}
+
+type fw struct{}
+
+func (f *fw) Close() { sink(1) }
+
+func (f *fw) Flush() { sink(2) }
+
+func (f *fw) Note(v int) { sink(v + 10) }
+`}}},
 		// one value returned from two different blocks
 		mk("tworeturns", `	t := a*3 + b
 	if a > b {
@@ -856,6 +899,22 @@ func isT[T any](v interface{}) bool {
 		}
 		return int(d + c), y
 	}`),
+		// counter of a DECLARED unsigned type that starts beyond the signed range
+		Base{Name: "F", ID: "declareduintstart", Src: "func F" + sig + " {\n" + `	type addr uint64
+	n := 0
+	for pos := addr(0x8000000000000000); pos < addr(0x8000000000000000)+addr(b&7)*4096; pos += 4096 {
+		n++
+	}
+	return n, x
+}
+`, Manual: []ManualEdit{{"the counter of a declared unsigned type starts at 0x8000000000001000 instead of 0x8000000000000000 (one iteration fewer)", "func F" + sig + " {\n" + `	type addr uint64
+	n := 0
+	for pos := addr(0x8000000000001000); pos < addr(0x8000000000000000)+addr(b&7)*4096; pos += 4096 {
+		n++
+	}
+	return n, x
+}
+`}}},
 		// a value that is never used but whose computation can panic (a shift by a negative count)
 		Base{Name: "F", ID: "deadshift", Src: "func F" + sig + ` {
 	_ = a << b
